@@ -198,8 +198,16 @@ package kgo
 
 // wireLengthForProduceVersion: which layout the length is for - compact (flexible) encodings from v9, topic ids
 // from v13, the pessimistic non-flexible layout while the version is unknown.
+//@ func (b *recBatch) v0wireLength() (r int32)
+//@   prop C18
+//@   pure
+//@   ensures r == b.v1wireLength - 8
 //@ func (b *recBatch) wireLengthForProduceVersion(v int32) (batchWireLength int32, flexible bool, topicIDs bool)
 //@   prop C18
 //@   ensures [flexible-from-v9] flexible == (v >= 9)
 //@   ensures [topic-ids-from-v13] topicIDs == (v >= 13)
 //@   ensures [record-batches-v3-to-v8] (v >= 3 && v <= 8) ==> batchWireLength == old(b.wireLength)
+//@   ensures [message-set-v1-for-v2] v == 2 ==> batchWireLength == old(b.v1wireLength)
+//@   ensures [message-set-v0-for-v0-v1] (v == 0 || v == 1) ==> batchWireLength == old(b.v1wireLength) - 8
+//@   ensures [unknown-version-is-sized-for-the-largest-layout] v < 0 ==> (batchWireLength >= old(b.wireLength) && batchWireLength >= old(b.v1wireLength) && reached($flexibleWireLength0) && batchWireLength >= $flexibleWireLength0)
+//@   ensures [compact-layout-from-v9] v >= 9 ==> (reached($flexibleWireLength1) && batchWireLength == $flexibleWireLength1)
